@@ -157,6 +157,7 @@ func cmdCheck(args []string) int {
 	keep := fs.Bool("keep", false, "keep query files")
 	noEvidence := fs.Bool("no-evidence", false, "do not write the evidence file")
 	noRep := fs.Bool("no-replay", false, "do not replay failures or write replay files")
+	noRetry := fs.Bool("no-retry", false, "one pass only: no retry with longer limits (canary runs: a tree known to be broken only has to be reported, not classified)")
 	verbose := fs.Bool("v", false, "print every obligation with its result")
 	fs.Parse(args)
 	if *tier == "" {
@@ -521,7 +522,7 @@ func cmdCheck(args []string) int {
 				to = 10 * time.Second
 			}
 			r.Res = runSolvers(r.Q, file, to, r.O.Expect == "unsat", mt, *tier == "thorough" && r.O.Expect == "unsat", seed)
-			if r.O.Expect == "unsat" && r.Res.Status != "unsat" && r.Res.Status != "sat" && !knownNames[r.O.Name] && atomic.AddInt32(&retries, 1) <= 6 {
+			if r.O.Expect == "unsat" && r.Res.Status != "unsat" && r.Res.Status != "sat" && !knownNames[r.O.Name] && !*noRetry && atomic.AddInt32(&retries, 1) <= 6 {
 				// retry once with a longer limit before calling it undischarged (at most six
 				// obligations per run: a tree on which many obligations fail is reported promptly)
 				r.Res = runSolvers(r.Q, file, 3*timeout, true, mt, false, seed+1)
@@ -535,7 +536,7 @@ func cmdCheck(args []string) int {
 	// a tree on which many obligations fail is still reported within minutes.
 	late := 0
 	for i, r := range results {
-		if r.O.Expect != "unsat" || r.Res.Status != "timeout" || knownNames[r.O.Name] || late >= 4 {
+		if r.O.Expect != "unsat" || r.Res.Status != "timeout" || knownNames[r.O.Name] || late >= 4 || *noRetry {
 			continue
 		}
 		late++
